@@ -1,6 +1,7 @@
 package main
 
 import (
+	"bufio"
 	"bytes"
 	"encoding/hex"
 	"errors"
@@ -186,11 +187,22 @@ func famC03(g *Gen, o *Out, n int, thorough bool) {
 		qs := g.queries(bs)
 		desc := fmt.Sprintf("%s roots=%s blocks=%s ver=%d dp=%d pad=%d arch=%s q=%s", io_, roots, blocksStr(bs), ver, dp,
 			len(src)-len(arch), hex.EncodeToString(src), cidsStr(qs))
-		for _, kind := range []string{"seek", "plain"} {
+		for _, rk := range []string{"seek", "plain", "bufio", "buffer"} {
+			// bufio.Reader / bytes.Buffer: plain streams that ALSO offer ReadByte (what a pipe behind a
+			// bufio.Reader looks like); for the model they are plain streams
+			kind := rk
+			if rk == "bufio" || rk == "buffer" {
+				kind = "plain"
+			}
 			for _, codec := range []string{"sorted", "mh", "ins"} {
 				var r io.Reader = bytes.NewReader(src)
-				if kind == "plain" {
+				switch rk {
+				case "plain":
 					r = &plainReader{r}
+				case "bufio":
+					r = bufio.NewReaderSize(&plainReader{r}, 16+g.pick(64))
+				case "buffer":
+					r = bytes.NewBuffer(append([]byte{}, src...))
 				}
 				idx := newIndex(codec)
 				err := carv2.LoadIndex(idx, r, io_.opts()...)
@@ -199,7 +211,7 @@ func famC03(g *Gen, o *Out, n int, thorough bool) {
 					res += " get=" + queryIndex(idx, qs) + " each=" + eachIndex(idx)
 				}
 				o.Line(fmt.Sprintf("idx kind=%s codec=%s %s", kind, codec, desc), res)
-				o.Count("idx/" + kind + "/" + codec + "/v" + fmt.Sprint(ver))
+				o.Count("idx/" + rk + "/" + codec + "/v" + fmt.Sprint(ver))
 			}
 		}
 	}
